@@ -34,6 +34,7 @@ struct AlgoDesc {
         void *isal_init, *isal_submit, *isal_flush;
         void *leg_init, *leg_submit, *leg_flush;
         void **disp_init, **disp_submit, **disp_flush; // <entry>_dispatched slots
+        size_t mgr_align = 64, ctx_align = 64;        // what the public types demand (alignof)
 };
 
 #define DESC(A, T, NAME, LF)                                                                                                               \
@@ -43,7 +44,7 @@ struct AlgoDesc {
                         offsetof(ISAL_##T##_HASH_CTX, error), offsetof(ISAL_##T##_HASH_CTX, total_length),                                   \
                         offsetof(ISAL_##T##_HASH_CTX, partial_block_buffer), offsetof(ISAL_##T##_HASH_CTX, partial_block_buffer_length),     \
                         offsetof(ISAL_##T##_HASH_CTX, user_data), offsetof(ISAL_##T##_HASH_CTX, job.user_data), ISAL_##T##_BLOCK_SIZE, LF,   \
-                        {}, 0, 0, 0, 0, 0, 0, 0, 0, 0                                                                                        \
+                        {}, 0, 0, 0, 0, 0, 0, 0, 0, 0, alignof(ISAL_##T##_HASH_CTX_MGR), alignof(ISAL_##T##_HASH_CTX)                        \
         }
 
 static AlgoDesc g_algos[A_N] = {
@@ -887,7 +888,15 @@ struct HashMgrSim : Sim {
                 const AlgoDesc &d = *s.d;
                 e.ev(hash_str(s.tag.c_str()));
                 // manager: uninitialised memory from the hidden stream
-                s.mgr = e.mem.alloc(d.mgr_size, 64, (Place) (p.get("mgr_place") % 3), &e.hidden, "manager", R_OBJECT, 64);
+                // the manager goes wherever its public type allows: alignof(type), at a seeded multiple of it (in one run of two)
+                {
+                        size_t al = (p.seed >> 7) & 1 ? d.mgr_align : 64;
+                        Place pl = (Place) (p.get("mgr_place") % 3);
+                        if (al < 64)
+                                pl = MID;
+                        s.mgr = e.mem.alloc(d.mgr_size, al, pl, &e.hidden, "manager", R_OBJECT, al * (size_t) (1 + (p.seed >> 9) % 15));
+                        s.r->cov.hit(strfmt("probe_manager_address_mod64_%d", (int) ((uintptr_t) s.mgr % 64)));
+                }
                 s.ctx_out = (uint64_t *) e.mem.alloc(8, 8, END_FLUSH, &e.hidden, "ctx_out slot", R_OUTPUT);
                 int K = (int) std::max<int64_t>(1, std::min<int64_t>(p.get("clients"), 100));
                 s.cl.resize(K);
